@@ -559,6 +559,17 @@ def scenario_case(d, kind, weights):
             if 2 in g.live:
                 msg(0, dict(sent=g.sent(True), iface='wl_registry', id=2, name='global', args=[['uint', d.int(1, 60)], ['str', w], ['uint', d.int(1, 9)]]))
             msg(0, g.next(d, d.choice(['sync', 'message'])))
+    elif kind == 'refused-selection':
+        # a connection is selected, then a name that denotes nothing is refused: the selection stays as it was
+        ga = start(0, n=d.int(1, 3))
+        gb = start(1, n=d.int(1, 3))
+        cmd('breakpoint ' + d.choice(['*', 'wl_display, wl_registry, wl_callback', '.sync, .get_registry, .done, .bind, .delete_id', '* ! .nope']))
+        cmd(d.choice(['connection ', 'c ', 'conn ']) + d.choice(['A', 'B', 'a']))
+        for _ in range(d.int(1, 2)):
+            cmd('connection ' + d.choice(['Q', 'ZZ', 'nope', '7', 'C']))
+        for _ in range(d.int(3, 7)):
+            which = d.int(0, 1)
+            msg(which, (ga, gb)[which].next(d, d.choice(['sync', 'message', 'delete', 'sync'])))
     elif kind == 'star-after-exclusion':
         g = start(0)
         cmd('breakpoint ' + d.choice(['wl_callback', 'wl_display', '.bind', 'wl_registry']) + ' ! ' + d.choice(['.delete_id', '.sync', 'wl_display', '.done']))
